@@ -5,6 +5,8 @@ P="$1"; C="$2"; T="${3:-quick}"
 cd /repo || exit 9
 git diff --quiet || { echo "repo dirty"; exit 9; }
 git apply "$P" || { echo "patch does not apply"; exit 9; }
+# whatever happens to this script (also a reader that closes the pipe early): undo the change
+trap 'git -C /repo checkout -- .' EXIT HUP INT TERM PIPE
 cd /verif
 VERIF_OUT=/tmp/tryseed-out ./check "$C" --tier "$T" > /tmp/tryseed.$$.log 2>&1
 rc=$?
